@@ -1,6 +1,7 @@
 (* round.truncated_svd: the rank decision.  S = squared singular values (non-increasing), the code computes
    where((cumsum(S[reverse]) <= delta**2))[0], takes the last hit w and returns
-   rank = max(1, min(rmax, len(S) - 1 - w))   (or max(1, min(rmax, len(S))) when there is no hit).
+   rank = max(1, min(rmax, len(S) - max(null, 1 + w)))   (or max(1, min(rmax, len(S) - null)) when there is no hit),
+   where null = number of singular values at round-off level (<= s_0 max(m,n) eps), which are never kept.
    Here: [ndrop] = number of trailing values whose sum stays within the budget = w + 1.  No proofs here. *)
 From Coq Require Export QArith List Arith Lia.
 Import ListNotations.
@@ -13,6 +14,6 @@ Fixpoint ndrop_rev (acc : Q) (rs : list Q) (d2 : Q) : nat :=
   | x :: rs' => if Qle_bool (acc + x) d2 then S (ndrop_rev (acc + x) rs' d2) else O
   end.
 Definition ndrop (S : list Q) (d2 : Q) : nat := ndrop_rev 0 (rev S) d2.
-Definition choose_rank (S : list Q) (d2 : Q) (rmax : nat) : nat :=
-  Nat.max 1 (Nat.min rmax (length S - ndrop S d2)).
+Definition choose_rank (S : list Q) (d2 : Q) (rmax null : nat) : nat :=
+  Nat.max 1 (Nat.min rmax (length S - Nat.max null (ndrop S d2))).
 Definition tail_energy (S : list Q) (r : nat) : Q := sumq (skipn r S).
